@@ -342,25 +342,37 @@ class _SState:
             # that has to open the map can fail; the access may raise, nothing else may be disturbed.
             if self.live():
                 return 'skip_map_already_open'
-            import darr.array as DA
+            import builtins
+            import io
             idx = self.resolve(a['idx'])
-            datafile = os.path.join(self.path, 'arrayvalues.bin')
+            datafile = os.path.realpath(os.path.join(self.path, 'arrayvalues.bin'))
             fired = []
+            real_open = builtins.open
 
             def faulty_open(file=None, *args, **kw):
-                if not fired and os.path.realpath(str(file)) == os.path.realpath(datafile):
+                try:
+                    hit = not fired and not isinstance(file, int) and os.path.realpath(os.fspath(file)) == datafile
+                except Exception:
+                    hit = False
+                if hit:
                     fired.append(1)
                     raise OSError(a['errno'], 'injected failure to open the data file')
-                return open(file, *args, **kw)
-            DA.open = faulty_open        # module-level name shadows the builtin inside darr.array only
+                return real_open(file, *args, **kw)
+            # the seam is the interpreter's open() itself (builtins.open, io.open = what pathlib uses): whatever module
+            # of Darr opens the data file, and however, during this one access
+            builtins.open = faulty_open
+            io.open = faulty_open
             try:
                 try:
                     A[idx]
                     out = 'read_ok_fault_not_reached'
-                except OSError:
-                    out = 'read_failed'
+                except Exception:        # the refusal may be passed on as OSError or wrapped in a class of Darr's own
+                    out = 'read_failed' if fired else None
+                    if out is None:
+                        raise
             finally:
-                del DA.open
+                builtins.open = real_open
+                io.open = real_open
             if fired:
                 self.probe('open_fault_fired')
                 self.faults = getattr(self, 'faults', {})
